@@ -16,9 +16,10 @@ func main() {
 	logrus.SetOutput(io.Discard)
 	logrus.AddHook(startDelayHook{})
 	hx.Main(map[string]func(*hx.Ctx) error{
-		"probe":        driveProbe,
-		"stubdispatch": driveDispatch,
-		"stublife":     driveLife,
+		"probe":           driveProbe,
+		"stubdispatch":    driveDispatch,
+		"stublife":        driveLife,
+		"stublife-worker": lifeWorker,
 	})
 }
 
